@@ -216,7 +216,8 @@ CHECKS = {
         "right kind; a label decision taken by orbit membership also reads "
         "the descriptor's parity (R-PARITY-USED); every assignment of the "
         "permutation label (fast paths too) is a candidate of the round "
-        "trip. Known finding F42: identifier 0 is written as atom-map "
+        "trip; the neighbour tuples the tags are computed against are read "
+        "off GetNeighbors() of the RDKit atom (R-RDKIT-ORDER). Known finding F42: identifier 0 is written as atom-map "
         "number 0, which the map-number import rejects.",
         "Trusted: RDKit keeps bond-insertion neighbour order and carries "
         "tags / labels / atom-map numbers, and keeps E/Z stereo of a double "
